@@ -307,7 +307,7 @@ func (p DHCP4) AppendOptions(options DHCP4Options, order []byte) int {
 		byte(DHCP4OptionStaticRoute),
 		byte(DHCP4OptionRouter),
 	}
-	order = append(order, optionsReplyParametersList...)
+	order = append(optionsReplyParametersList, order...) // mandatory order first: the requested order must not move the router ahead of the mask
 
 	// first copy parameters in order
 	for _, code := range order {
